@@ -446,7 +446,7 @@ def check_layout(lines, e, h36, cl):
             if i >= len(rows) or not rows[i].startswith("MODEL "):
                 return "MODEL", "missing for model %d" % (mm + 1)
             try:
-                ok = int(rows[i][10:14]) == mm + 1
+                ok = mm + 1 > 9999 or int(rows[i][10:14]) == mm + 1  # serial beyond 4 columns: unspecified
             except ValueError:
                 ok = False
             if not ok:
@@ -593,9 +593,10 @@ def readback(lines, e, cl):
         bad = compare(s, e, list(range(m)), cl, "get_structure()")
         if bad:
             return ("roundtrip_" + bad[0],) + bad[1:]
-        for k in list(range(1, m + 1)) + [-1]:
+        ks = list(range(1, m + 1)) if m <= 50 else sorted({1, 2, 9, 10, 11, 99, 100, 101, m // 2, m - 1, m})
+        for k in ks + [-1] + ([-m] if m > 50 else []):
             a = g.get_structure(model=k, extra_fields=EXTRA)
-            bad = compare(a, e, [k - 1 if k > 0 else m - 1], cl, "get_structure(model=%d)" % k)
+            bad = compare(a, e, [k - 1 if k > 0 else m + k], cl, "get_structure(model=%d)" % k)
             if bad:
                 return ("roundtrip_" + bad[0],) + bad[1:]
         c = np.asarray(g.get_coord(), dtype=float)
@@ -1084,6 +1085,7 @@ KINDS = {
     "w": ("A", 5, "", "HOH", True),
 }
 ID_COMBOS = [("default", False), ("gap", False), ("default", True), ("gap", True), ("h36x", True)]
+UNSPECIFIED_IDS = ("rev", "perm", "neg", "allneg")  # exception on reading bonds, or the exact bonds
 ORDER_CODE = {"SING": 1, "DOUB": 2, "TRIP": 3}
 
 
@@ -1211,6 +1213,14 @@ def bond_case_e(case, atoms):
         ids = [10 * (p + 1) for p in range(n)]
     elif case["ids"] == "h36x":
         ids = [99999 - (n // 2) + p for p in range(n)]
+    elif case["ids"] == "rev":
+        ids = list(range(n, 0, -1))
+    elif case["ids"] == "perm":
+        ids = [[20, 10, 30, 5][p] for p in range(n)]
+    elif case["ids"] == "neg":
+        ids = [p - 1 for p in range(n)]
+    elif case["ids"] == "allneg":
+        ids = [p - 5 for p in range(n)]
     return {
         "m": m, "n": n,
         "chain_id": [a[0] for a in atoms], "res_id": [a[1] for a in atoms], "ins_code": [a[2] for a in atoms],
@@ -1227,11 +1237,21 @@ def bond_shards(tier):
     if tier == "thorough":
         out += [{"kind": "bonds", "what": "word", "n": 4, "prefix": a + b} for a in "abhi" for b in "abhi"]
     out.append({"kind": "bonds", "what": "special"})
+    out.append({"kind": "bonds", "what": "ids"})
     return out
 
 
 def bond_cases(shard):
-    if shard["what"] == "word":
+    if shard["what"] == "ids":
+        words = ["".join(w) for w in itertools.product(KINDS, repeat=2)] + ["".join(w) for w in itertools.product("ahb", repeat=3)]
+        for word in words:
+            all_edges = list(itertools.combinations(range(len(word)), 2))
+            for mask in range(1, 1 << len(all_edges)):
+                edges = [list(e) for b, e in enumerate(all_edges) if mask >> b & 1]
+                for ids in UNSPECIFIED_IDS:
+                    yield {"kind": "bonds", "what": "word", "word": word, "edges": edges, "ids": ids, "h36": False,
+                           "stack": False}
+    elif shard["what"] == "word":
         n = shard["n"]
         letters = "abhi" if n == 4 else "".join(KINDS)
         all_edges = list(itertools.combinations(range(n), 2))
@@ -1276,7 +1296,7 @@ def run_bond_case(ctx, case, count=False):
     info = bond_model(atoms, bonds)
     if count:
         ctx.ev(1, 1 if bonds else 0)
-        ctx.count("accepted")
+        ctx.count("unspecified" if case["ids"] in UNSPECIFIED_IDS else "accepted")
     deg = [0] * n
     for pr, d in info.items():
         if d["in"] is not None and d["carried"]:
@@ -1285,7 +1305,8 @@ def run_bond_case(ctx, case, count=False):
 
     def pclass(pr):
         i, j = sorted(pr)
-        return pair_class(atoms[i], atoms[j], deg[i] > 4 or deg[j] > 4)
+        suffix = "_ids_" + case["ids"] if case["ids"] in UNSPECIFIED_IDS else ""
+        return pair_class(atoms[i], atoms[j], deg[i] > 4 or deg[j] > 4) + suffix
 
     def fail(site, mode, klass, what, exp, obs):
         ctx.violation("%s|%s|%s" % (site, mode, klass), what, case, expected=exp, observed=obs)
@@ -1349,6 +1370,10 @@ def run_bond_case(ctx, case, count=False):
             got.append(("get_structure(model=%d,include_bonds)" % k,
                         g.get_structure(model=k, extra_fields=EXTRA, include_bonds=True), [k - 1]))
     except Exception as x:  # noqa: BLE001
+        if case["ids"] in UNSPECIFIED_IDS:
+            # serial numbers that are not increasing / negative: the reader may refuse to resolve CONECT
+            ctx.count("unspecified_observed_raised")
+            return
         fail("PDBFile.get_structure", "read_error_" + type(x).__name__, gen, "written file with CONECT not readable",
              "structure", "%s: %s" % (type(x).__name__, str(x)[:200]))
         return
